@@ -18,7 +18,7 @@
      kind "scalar" : a printed number
      kind "squares": y*y and sign(y) (irrational factor with rational square)
      kind "avg"    : mean and squared standard error                                     *)
-EXTENDS Integers, Sequences, FiniteSets, CArith, Rat
+EXTENDS Integers, Sequences, FiniteSets, TLC, CArith, Rat
 
 Z == -1000                               \* exponent of the distribution value 0
 Tab(y, f) == [y |-> y, f |-> f]
